@@ -392,7 +392,9 @@ def gen_case(rng, forced=None):
         for b in rng.sample(range(nbuf), nbuf):
             e = evaluate(case, buffers[b])
             if e[0] == "ok" and math.isfinite(e[1]):
-                case["ctor"] = {"pbuf": b, "old": hx(e[1] * -2.0 if fl["chi2"] else e[1])}
+                # the stored best vector is an object of its own (owned by the paths): a buffer no operation touches
+                case["buffers"].append(list(case["buffers"][b]))
+                case["ctor"] = {"pbuf": nbuf, "old": hx(e[1] * -2.0 if fl["chi2"] else e[1])}
                 break
     return case
 
